@@ -147,7 +147,7 @@ def run(ctx):
     ctx.cov["distinct_nontrivial"] += distinct
     ctx.notes["correspondence"] = {
         "cases": len(lines), "mismatches": len(mism), "distinct_cases": distinct, "classes": classes,
-        "outside_model": outside,  # HEVC cases whose PPS selects the multilayer / 3D extension (not modelled): not compared
+        "outside_model": outside,  # always 0: every case is compared (the PPS multilayer / 3D extension bodies are modelled)
         "distribution": "stage 2/3 (hevc SPS/PPS/slice + hevc pipelines SPS->PPS->slice, SPS->SEI, confrec->PS->slice; avc SPS/PPS/slice/GetSliceType/ParsePSAndSlice pipeline, avc+hevc ParseSEINalu, ExtractSEIData, 8 SEI decoders, "
                         "ADTS, ASC, 7 Annex B helpers): the search generators (captured seeds, every prefix of a seed, mutants, field soups with "
                         "hostile ue(v), structured pipelines, raw short inputs), n/20 per target; reference parameter sets sent in CTX lines and "
